@@ -216,7 +216,23 @@ func programStackNeed(nodes []eval.VerifNode, parents []int16) int {
 func stackShape(shape, need int) *m.Node {
 	q := func(i int) *m.Node { return m.Var(fmt.Sprintf("q%d", i%4)) }
 	p := func(i int) *m.Node { return m.Var(fmt.Sprintf("p%d", i%4)) }
-	switch shape % 6 {
+	switch shape % 7 {
+	case 6: // one n-ary call over texts that coincide with the engine's internal end-if word
+		fi := func(i int) *m.Node {
+			if i%2 == 0 {
+				return m.Const("fi")
+			}
+			return m.Var("fi")
+		}
+		k := need
+		if k < 3 {
+			k = 3 // (a two-leaf call would be inlined under FastEvaluation)
+		}
+		n := m.Op("=")
+		for i := 0; i < k; i++ {
+			n.Kids = append(n.Kids, fi(i))
+		}
+		return n
 	case 0: // right-nested arithmetic: (+ q (+ q (+ q ... (+ q q q))))
 		n := m.Op("+", q(0), q(1), q(2))
 		for d := 3; d < need; d++ {
@@ -308,6 +324,15 @@ func (c C09Case) tree() *m.Node {
 		tree := sized(c.Op, c.Inner, base)
 		decorate(tree, c.Ifs, c.Bins)
 		return tree
+	case "deep":
+		// right-nested three-operand calls: every level keeps two values waiting, so the
+		// requirement is 3 + 2k for k+1 levels (4 + 3k nodes): N is the requirement
+		k := (c.N - 3) / 2
+		tree := m.Op("+", leafFor("+", 0), leafFor("+", 1), leafFor("+", 2))
+		for i := 0; i < k; i++ {
+			tree = m.Op([]string{"+", "c_sum", "*"}[i%3], leafFor("+", i), leafFor("+", i+1), tree)
+		}
+		return tree
 	default:
 		tree := stackShape(c.Shape, c.N)
 		deepen(tree, c.Deep)
@@ -387,6 +412,7 @@ func (c C09Case) universe() *Universe {
 	for i := 0; i < 4; i++ {
 		u.Vars = append(u.Vars, VarDecl{Name: fmt.Sprintf("q%d", i), Ty: m.TInt, Val: m.V{X: int64(1 + i%2)}})
 	}
+	u.Vars = append(u.Vars, VarDecl{Name: "fi", Ty: m.TStr, Val: m.V{X: "fi"}})
 	return u
 }
 
@@ -394,7 +420,10 @@ func isAndCase(c C09Case) bool { return !m.IsOr(c.Op) }
 
 func genC09(t *rapid.T) C09Case {
 	c := C09Case{Mask: rapid.IntRange(0, 15).Draw(t, "mask"), Events: rapid.IntRange(0, 2).Draw(t, "events"), Reach: rapid.Bool().Draw(t, "reach")}
-	switch pickW(t, "kind", 3, 2, 1, 6) {
+	switch pickW(t, "kind", 3, 2, 1, 6, 1) {
+	case 4:
+		c.Kind = "deep"
+		c.N = rapid.SampledFrom([]int{255, 257, 4095, 4097, 8191, 8193, 16381, 16383, 16385, 16387, 20001, 21843, 21845}).Draw(t, "deepneed")
 	case 0:
 		c.Kind, c.Op, c.N = "arity", rapid.SampledFrom(naryOps).Draw(t, "op"), rapid.IntRange(120, 135).Draw(t, "n")
 	case 1:
@@ -417,7 +446,7 @@ func genC09(t *rapid.T) C09Case {
 			c.Ifs, c.Bins = rapid.IntRange(1, 50).Draw(t, "ifs"), rapid.IntRange(1, 50).Draw(t, "bins")
 		}
 	default:
-		c.Kind, c.Shape, c.N = "stack", rapid.IntRange(0, 5).Draw(t, "shape"), rapid.IntRange(1, 24).Draw(t, "need")
+		c.Kind, c.Shape, c.N = "stack", rapid.IntRange(0, 6).Draw(t, "shape"), rapid.IntRange(1, 24).Draw(t, "need")
 		c.Deep = rapid.IntRange(0, 5).Draw(t, "deep")
 	}
 	return c
@@ -459,6 +488,13 @@ func checkC09(c C09Case, r *Rec) *Violation {
 	for _, b := range []int{127, 16383, 32767} {
 		for _, x := range []int{ops, size, total} {
 			if x >= b-2 && x <= b+2 {
+				near = true
+			}
+		}
+	}
+	if c.Kind == "deep" {
+		for _, b := range []int{16384, 21845} {
+			if c.N >= b-3 && c.N <= b+3 {
 				near = true
 			}
 		}
@@ -554,7 +590,7 @@ func sweepC09(tier string, shard, shards int, emit func(C09Case)) {
 	}
 	// stack requirements 1..24 for every shape, every mask, every event mode
 	for need := 1; need <= 24; need++ {
-		for shape := 0; shape < 6; shape++ {
+		for shape := 0; shape < 7; shape++ {
 			for mask := 0; mask < 16; mask++ {
 				if !thorough && mask != 0 && mask != 15 && mask != MaskFast && mask != (need+shape)%16 {
 					continue
@@ -573,6 +609,18 @@ func sweepC09(tier string, shard, shards int, emit func(C09Case)) {
 						}
 					}
 				}
+			}
+		}
+	}
+	// very deep operand stacks (right-nested three-operand calls), up to the largest program
+	deeps := []int{16383, 16385, 21845}
+	if thorough {
+		deeps = []int{127, 129, 255, 257, 1023, 1025, 4095, 4097, 8191, 8193, 16381, 16383, 16385, 16387, 20001, 21841, 21843, 21845}
+	}
+	for _, n := range deeps {
+		for _, mask := range masks {
+			for ev := 0; ev <= 1; ev++ {
+				send(C09Case{Kind: "deep", N: n, Mask: mask, Events: ev, Reach: true})
 			}
 		}
 	}
